@@ -557,6 +557,18 @@ func (x *Exec) step(st *State, fr *Frame, ins ssa.Instruction) {
 		fr.defers = append(fr.defers, deferred{call: call, fnv: fnv, args: args, pos: ins.Pos(), instr: ins})
 	case *ssa.Go:
 		x.note("go statement in %s: body not executed (concurrent body, sequential reasoning only)", fr.fn.Name())
+		// a spawned function under contract: its preconditions are obligations of the spawn
+		// point (the body is verified as its own unit from exactly those preconditions);
+		// the contract's effects are not applied here
+		if fnv, args := x.evalCallee(st, fr, ins.Common()); fnv.Fn != nil {
+			key := funcKey(fnv.Fn)
+			if c := x.contractOf(key); c != nil && !c.Inline && len(c.Requires) > 0 {
+				st2 := st.clone()
+				x.pendingBinds = fnv.Binds
+				x.applyContract(st2, fr, c, key, fnv.Fn.Signature, fnv.Fn, args, ins.Pos())
+				x.note("preconditions of %s checked at the go statement in %s", shortName(key), fr.fn.Name())
+			}
+		}
 		x.havocGoEffects(st, fr, ins.Common())
 	case *ssa.Send:
 		// a send is a no-op on tracked state; if the package declares the ghost
